@@ -101,6 +101,11 @@ theorem N.suspend {w : World} (h : N w) {pc : Pc} (hpc : NpPc w.sess w.nets.leng
 theorem N.hd {w : World} (h : N w) : N w.handleDisconnect :=
   h.toN (NpCore.handleDisconnect h.1) rfl rfl h.2.2
 
+theorem N.fs {w : World} (h : N w) (ctx : StepCtx) (st : Outbound.Step) : N (w.failStep ctx st) := by
+  rcases failStep_cases w ctx st with e | e <;> rw [e]
+  · exact h
+  · exact h.hd
+
 theorem N.df {w : World} (h : N w) (ctx : StepCtx) : N (w.discFail ctx) := by
   rcases discFail_cases w ctx with ⟨e, _⟩ | ⟨e, _⟩ <;> rw [e]
   · exact h
@@ -309,7 +314,7 @@ theorem nstep_performStep (fuel : Nat) (ih : NMachine fuel) :
   obtain ⟨_, _, i3, i4, i5, _⟩ := ih
   simp only [performStep]
   split
-  · exact (h.df _).done rfl rfl rfl rfl
+  · exact (h.fs _ _).done rfl rfl rfl rfl
   · exact i5 _ _ _ h
   · split
     · exact (h.df _).done rfl rfl rfl rfl
